@@ -1,6 +1,8 @@
 (* Props/C04.v -- C04: expressions evaluate as C expressions over wrapping 32-bit integers.
    Only statements, [exact]s and Print Assumptions live here. *)
 From Az65 Require Import Base Token Expr CSpec ExprFacts ExprParse ExprParseFacts.
+From Az65 Require Import ExprGenFacts.
+From Az65.Gen Require Import ExprArms.
 
 (* (1) The evaluator (model of Expr::evaluate) on the postfix code of ANY expression tree gives
        exactly the C value of the tree (CSpec.ceval: wrapping int32 arithmetic, truncating / %,
@@ -38,6 +40,15 @@ Theorem C04_pexpr_is_compile :
       ts = consumed ++ r /\ G0 consumed e /\ resolve cx e = Ok c /\ ns = compile c.
 Proof. exact pexpr_is_compile. Qed.
 Print Assumptions C04_pexpr_is_compile.
+
+(* (5) The tie to the source by translation: the arithmetic of every pure arm of Expr::evaluate_inner, as
+       TRANSLATED from /repo/src/expr.rs on this run (Gen/ExprArms.v: operand pop order, guard, pushed
+       expression with their i32 / u32 / u16 / bool meaning), is the arm of the model about which (1)-(2) are
+       proved - for every node and every stack. *)
+Theorem C04_code_arms_are_model_arms :
+  forall (n : node) (stack : list Z), gen_pure_step n stack = pure_step n stack.
+Proof. exact generated_arms_are_model_arms. Qed.
+Print Assumptions C04_code_arms_are_model_arms.
 
 (* non-vacuity: a concrete expression with mixed precedence, a lazy symbol and wrap-around *)
 Example C04_example :
